@@ -95,6 +95,9 @@ func FuzzC02_HTML(f *testing.F) {
 			switch tt {
 			case html.StartTagToken, html.EndTagToken, html.SVGToken, html.MathToken, html.XMLToken:
 				k.subs, k.names = [][]byte{l.Text()}, [][]byte{l.Text()}
+				if tt == html.EndTagToken {
+					k.names = [][]byte{tagNameOf(l.Text())}
+				}
 			case html.AttributeToken:
 				k.subs, k.names = [][]byte{l.AttrKey(), l.AttrVal()}, [][]byte{l.AttrKey()}
 			case html.StartTagCloseToken, html.StartTagVoidToken:
